@@ -72,6 +72,12 @@ def r_rule_dependency(ck: Checker) -> None:
            "inline.is_single relies on len(get_statements_that_use(p)) != 1 to see a predicate used twice in one statement; de-duplicating the uses makes it look single")
     okk, n = every_iteration_reaches(ck, func, loop, app, None)  # type: ignore[arg-type]
     ck.add("every occurrence is registered", okk and n > 0, func, app, f"unconditional append: {okk}", "")
+    getter = ck.func("dependency:RuleDependency.get_statements_that_use")
+    itg = ck.interp(getter)
+    grets = [(r_, st_) for r_, st_ in itg.returns if r_.value is not None]
+    gtxt = {itg.text(r_.value, st_) for r_, st_ in grets}
+    ck.add("the registered uses are handed out as they are (one entry per occurrence)", bool(gtxt) and all(t in (f"self.pred2stm[{getter.params()[1]}]", f"list(self.pred2stm[{getter.params()[1]}])", f"self.pred2stm[{getter.params()[1]}][:]") for t in gtxt), getter, grets[0][0] if grets else getter.node, f"get_statements_that_use returns {sorted(gtxt)}",
+           "inline.is_single reads len(get_statements_that_use(p)) == 1 as 'used exactly once in the whole program': a list without duplicates makes a predicate that occurs twice in ONE statement look single; one occurrence is unfolded, the definition deleted, the other occurrence is underivable")
     h = [c for c in attr_calls(func, "append") if unparse(c.func.value).startswith("self.head2rules[")]  # type: ignore[attr-defined]
     ck.need(len(h) == 1, "defining rules registered at one site")
     hb = [c for c in attr_calls(func, "append") if unparse(c.func.value).startswith("self.head2bodies[")]  # type: ignore[attr-defined]
